@@ -124,6 +124,33 @@ theorem uri_validator_scheme_whitelist (k : Uri.Kind) (schemeOk : Bytes → Bool
     (k = .full → ∃ sch, Uri.schemeOf v = some sch ∧ schemeOk sch = true) :=
   Uri.validator_scheme k schemeOk v h
 
+/-- the byte alphabet of accepted URI texts: every byte of a text any of the three validators accepts is a printable
+ASCII byte other than `"  <  >  \  [  ]  ^  \`  {  |  }` (so: no space, no control character, no byte ≥ 0x7F, no double
+quote, no angle bracket), and every `&` in it starts `&amp;` or `&apos;`.  (The single quote is an RFC 3986 sub-delim and
+is admitted.) -/
+theorem uri_accepted_bytes_safe (k : Uri.Kind) (schemeOk : Bytes → Bool) (v : Bytes)
+    (h : Uri.validator k schemeOk v = true) :
+    (∀ b ∈ v, Uri.byteOk b = true) ∧ Uri.refsOk v = true :=
+  ⟨Uri.safe_bytes (Uri.validator_safe k schemeOk v h), Uri.safe_refs (Uri.validator_safe k schemeOk v h)⟩
+
+/-- the scheme white list as a browser sees it: decode the character references of the accepted attribute value
+(`&amp;` → `&`, `&apos;` → `'`), apply the first steps of WHATWG URL parsing (strip leading/trailing C0-and-space,
+drop TAB/LF/CR, read letter (letter|digit|+|-|.)* `:`): if that yields a scheme, the validator is not the relative
+one and the scheme expression matched exactly these bytes.  This closes the lax spot of `relative_part()` /
+`authority()` (no `//` required, no backtracking after `userinfo()`): texts like `x_javascript:alert(1)`,
+`%6Aavascript:…`, `:x`, `1javascript:…` are accepted as relative references, and none of them has a scheme for a browser. -/
+theorem uri_browser_scheme_allowed (k : Uri.Kind) (schemeOk : Bytes → Bool) (v : Bytes)
+    (h : Uri.validator k schemeOk v = true) :
+    ∀ sch, Uri.browserScheme (Uri.decodeRefs v) = some sch → k ≠ .relative ∧ schemeOk sch = true := by
+  intro sch hs
+  rw [Uri.browserScheme_decode (Uri.validator_safe k schemeOk v h)] at hs
+  exact (Uri.validator_scheme k schemeOk v h).1 sch hs
+
+/-- non-vacuity: `x_javascript:alert(1)` is accepted by the `uri` validator (as a relative reference) and has no scheme for a browser -/
+example : Uri.validator .both (fun _ => false) [120, 95, 106, 97, 118, 97, 115, 99, 114, 105, 112, 116, 58, 97, 108, 101, 114, 116, 40, 49, 41] = true ∧
+    Uri.browserScheme (Uri.decodeRefs [120, 95, 106, 97, 118, 97, 115, 99, 114, 105, 112, 116, 58, 97, 108, 101, 114, 116, 40, 49, 41]) = none := by
+  decide +kernel
+
 /-- non-vacuity: `http://a/?x=1&amp;y=2#f` is accepted when `http` is allowed, and has that scheme -/
 example : Uri.validator .full (fun s => s == [104, 116, 116, 112])
     [104, 116, 116, 112, 58, 47, 47, 97, 47, 63, 120, 61, 49, 38, 97, 109, 112, 59, 121, 61, 50, 35, 102] = true := by decide +kernel
